@@ -450,6 +450,8 @@ func checkC18(c *Ctx, e *Env) {
 	for _, t := range []string{"FeeParams", "ClassFee", "BasketFee", "AllowedDenom", "ClassCreatorAllowlist", "AllowedClassCreator", "CreditType", "AllowedBridgeChain"} {
 		c.Check(cases[t], "C18.GENESIS", "validateMsg:"+t, "-", "genesis validation has a case for parameter table "+t)
 	}
+	ruleBankCoinsPositive(c, m, r)
+	ruleKeyNormalisation(c, m, r, "C18.KEYNORM")
 }
 
 func newCoinOrdinal(ev *Event) int {
@@ -636,4 +638,155 @@ func splitTop(s, sep string) []string {
 		}
 	}
 	return append(out, s[start:])
+}
+
+// ruleBankCoinsPositive (parameter-dependent coins): the bank keeper rejects a Coins value that contains a non-positive coin
+// ("invalid coins"), and a handler that hands it one aborts. sdk.NewCoins drops zero coins; the literal
+// sdk.Coins{…} does not. So every coin of a Coins literal handed to a bank mutator must be proven
+// positive on the path by a test of that very amount (not of the decimal it was truncated from: a
+// positive fee below one base unit truncates to zero).
+func ruleBankCoinsPositive(c *Ctx, m *Model, r *E1) {
+	p := m.P
+	nLit, nAll := 0, 0
+	for _, h := range r.Handlers {
+		if h.EP.Kind == "canary" {
+			continue
+		}
+		bad := ""
+		n := 0
+		for _, o := range h.Outs {
+			st := o.St
+			for i := range st.events {
+				ev := &st.events[i]
+				if ev.Kind != "bank" || !isBankMutator(ev.Method) || ev.Method == "SetDenomMetaData" || !inScope(o, ev) || len(ev.Args) == 0 {
+					continue
+				}
+				nAll++
+				cs := r.X.coinsOf(st, ev.Args[len(ev.Args)-1])
+				if cs == nil || cs.Sanitised {
+					continue
+				}
+				// in scope: coins whose amount depends on a governance / genesis parameter (fee rates, fixed fees)
+				param := false
+				for _, cn := range cs.Items {
+					as := asInt(st, cn.Amt).L.String()
+					if strings.Contains(as, "FeeParams#") || strings.Contains(as, "ClassFee#") || strings.Contains(as, "BasketFee#") {
+						param = true
+					}
+				}
+				if !param {
+					continue
+				}
+				n++
+				nLit++
+				for _, cn := range cs.Items {
+					amt := asInt(st, cn.Amt)
+					if v, ok := st.known("Gt0(" + regLin(amt.L) + ")"); ok && v {
+						continue
+					}
+					if amt.L.IsConst() && amt.L.C.Sign() > 0 {
+						continue
+					}
+					if bad == "" {
+						bad = "bank." + ev.Method + " at " + p.Pos(ev.Pos.Pos()) + " receives a Coins literal whose coin amount " + amt.L.String() + " is not tested for positivity on the path {" + clip(strings.Join(st.facts, " "), 260) + "}: when it is zero (e.g. a positive fee below one base unit, truncated) the bank rejects the coins and the operation aborts"
+					}
+				}
+			}
+		}
+		if n == 0 {
+			continue
+		}
+		if bad != "" {
+			c.Violate("C18.BANKCOINS", h.Key, p.Pos(h.Fn.Pos()), bad, nil)
+		} else {
+			c.Hold("C18.BANKCOINS", h.Key, p.Pos(h.Fn.Pos()), fmt.Sprintf("%d bank calls with a Coins literal: every coin amount is tested positive on the path", n), nil)
+		}
+	}
+	c.Count("bank_mutator_events", nAll)
+	c.Count("bank_coins_literals", nLit)
+}
+
+var normWrapper = regexp.MustCompile(`^(lower|upper|ToLower|ToUpper|TrimSpace|Title|ToTitle|Trim[A-Za-z]*)\((.*)\)$`)
+
+// normShape: the normalising functions applied around a key term, outermost first.
+func normShape(term string) (shape string, inner string) {
+	var fs []string
+	for {
+		mm := normWrapper.FindStringSubmatch(term)
+		if mm == nil {
+			break
+		}
+		fs = append(fs, mm[1])
+		term = mm[2]
+	}
+	if len(fs) == 0 {
+		return "verbatim", term
+	}
+	return strings.Join(fs, "∘"), term
+}
+
+// ruleKeyNormalisation: governance-maintained lookup tables keyed by a string (allowed denoms, allowed
+// bridge chains) are written by governance handlers and consulted by user handlers. Both sides must
+// normalise the key the same way — a key stored lower-cased and looked up verbatim (or the reverse)
+// makes an entry governance added unusable, or lets a removed one linger. All write sites must agree
+// with each other, and every lookup whose key comes from a request must apply the same normalisation.
+func ruleKeyNormalisation(c *Ctx, m *Model, r *E1, rule string) {
+	p := m.P
+	for _, tn := range []string{"AllowedDenom", "AllowedBridgeChain"} {
+		t := m.Tables[tn]
+		if t == nil || len(t.PK) != 1 {
+			continue
+		}
+		keyCol := snakeToCamel(t.PK[0])
+		shapes := map[string][]string{} // shape → example sites
+		for _, h := range r.Handlers {
+			if h.EP.Kind == "canary" {
+				continue
+			}
+			for _, o := range h.Outs {
+				st := o.St
+				for i := range st.events {
+					ev := &st.events[i]
+					if ev.Table == nil || ev.Table.Name != tn {
+						continue
+					}
+					var key string
+					switch {
+					case ev.Kind == "write" && ev.Row != nil:
+						key = st.canon(ev.Row[keyCol])
+					case ev.Kind == "read" && len(ev.Keys) == 1:
+						key = st.canon(ev.Keys[0])
+					default:
+						continue
+					}
+					sh, inner := normShape(key)
+					if !strings.Contains(inner, "req.") {
+						continue // a stored or derived key (market.BankDenom of a fetched row): already in stored form
+					}
+					site := ev.Kind + " in " + h.Key + " at " + p.Pos(ev.Pos.Pos())
+					if len(shapes[sh]) < 3 {
+						shapes[sh] = append(shapes[sh], site)
+					}
+				}
+			}
+		}
+		var ks []string
+		for k := range shapes {
+			ks = append(ks, k)
+		}
+		sort.Strings(ks)
+		if len(ks) == 0 {
+			c.Undecide(rule, tn, "-", "no request-keyed access to "+tn+" found on explored paths")
+			continue
+		}
+		if len(ks) == 1 {
+			c.Hold(rule, tn, "-", "every request-keyed write and lookup of "+tn+" normalises the key the same way: "+ks[0], nil)
+			continue
+		}
+		var parts []string
+		for _, k := range ks {
+			parts = append(parts, k+" ("+shapes[k][0]+")")
+		}
+		c.Violate(rule, tn, "-", "writers and readers of "+tn+" normalise its key differently: "+strings.Join(parts, " vs ")+": an entry stored under one form is not found under the other", nil)
+	}
 }
